@@ -4,6 +4,7 @@ import NotationCore.Generated.Shape
   slices / arrays / strings, single-value type assertions, explicit panics, integer division by a
   non-constant, non-range loops, channel operations, direct recursion, discarded error results, calls into other modules that hand back a
   pointer without an error (nil = nothing found: `pem.Decode`) — as
+  (an index expression inside an `if` condition is recorded together with that whole condition: its guard)
   extracted from the *current* source, equals the inventory that was reviewed site by site (the review
   note is the doc comment of each lemma). A new unguarded index, assertion, loop, discarded error or
   recursive call changes the inventory and breaks the lemma of its package.
@@ -20,7 +21,7 @@ theorem panicSites_signature :
        "NewEnvelope: assert val.(envelopeFunc)",
        "ParseEnvelope: assert val.(envelopeFunc)",
        "NewLocalSigner: index certs[0]",
-       "NewLocalSigner: index certs[0]",
+       "NewLocalSigner: index certs[0] within !isKeyPair(key, certs[0].PublicKey, keySpec)",
        "SignRequest.WithContext: panic panic(\"nil context\")"] := rfl
 
 /-- reviewed: init: registration at package load (no input); Sign: `signedAttrs[signingScheme].(string)` — the map comes from getSignedAttributes, which
@@ -68,7 +69,7 @@ theorem panicSites_x509 :
        "ParsePrivateKeyPEM: may-be-nil pem.Decode",
        "ValidateTimestampingCertChain: index certChain[0]",
        "ValidateTimestampingCertChain: index certChain[i+1]",
-       "validateTimestampingExtendedKeyUsage: index cert.ExtKeyUsage[0]"] := rfl
+       "validateTimestampingExtendedKeyUsage: index cert.ExtKeyUsage[0] within len(cert.ExtKeyUsage) != 1 || cert.ExtKeyUsage[0] != x509.ExtKeyUsageTimeStamping || len(cert.UnknownExtKeyUsage) != 0"] := rfl
 
 /-- reviewed: ValidateContext: see Tie.revocation_ValidateContext_skel and Model.Conc (C17): `certChain[:len-1]` after the empty-chain check,
     `certChain[i+1]` / `certResults[i]` with `i` ranging over that slice, `certResults[len-1]`, channel operations and the re-panic are the skeleton -/
@@ -116,8 +117,8 @@ theorem panicSites_revocation_internal_ocsp :
 /-- reviewed: checkRevocation: indices from `range` over the same slice -/
 theorem panicSites_revocation_internal_crl :
     Shape.panicSites_revocation_internal_crl =
-      ["checkRevocation: index b.BaseCRL.RevokedCertificateEntries[i]",
-       "checkRevocation: index b.DeltaCRL.RevokedCertificateEntries[i]"] := rfl
+      ["checkRevocation: index b.BaseCRL.RevokedCertificateEntries[i] within !yield(&b.BaseCRL.RevokedCertificateEntries[i])",
+       "checkRevocation: index b.DeltaCRL.RevokedCertificateEntries[i] within !yield(&b.DeltaCRL.RevokedCertificateEntries[i])"] := rfl
 
 /-- reviewed: FindExtensionByOID: `extensions[idx]` after `idx < 0` returned -/
 theorem panicSites_revocation_internal_x509util :
